@@ -125,7 +125,9 @@ def run_properties(props, args, seed, scratch, manifest):
                 viol.append((o, r, "vacuity guard failed (%s): contract contradictory or path unreachable" % r["answer"]))
                 continue
             # known finding?
-            kf = [k for k in known if k.get("property") == p and k.get("obligation") == name and k.get("status", "open") == "open"]
+            # a finding is recorded once (under its main property) and recognised under every
+            # property the obligation is tagged with
+            kf = [k for k in known if k.get("obligation") == name and k.get("status", "open") == "open"]
             if kf:
                 k = kf[0]
                 co = carved.get(name)
